@@ -37,6 +37,14 @@ def make_variations(case, rng):
         # key-focused stage: the reserved-looking key 0 lands on every conditional in turn
         for r in range(n):
             out.append((f"rot{r}", {"sig": sig, "base": base, "keys": [(i - r) % n for i in range(n)], "qs": qs, "qkeys": list(range(0, m))}))
+        # ... and the ORDER in which the conditionals are inserted: reversed, rotated, shuffled (upper-layer conditionals before
+        # lower-layer ones and vice versa); keys 1..n follow the new order
+        orders = [list(reversed(range(n))), list(range(1, n)) + [0], [n - 1] + list(range(0, n - 1))]
+        sh = list(range(n))
+        rng.shuffle(sh)
+        orders.append(sh)
+        for oi, od in enumerate(orders):
+            out.append((f"order{oi}", {"sig": sig, "base": [base[i] for i in od], "keys": list(range(1, n + 1)), "qs": qs, "qkeys": list(range(1, m + 1))}))
         return out
     out.append(("keys0", {"sig": sig, "base": base, "keys": list(range(0, n)), "qs": qs, "qkeys": list(range(0, m))}))
     sparse = sorted(rng.sample(range(0, 60), n))
